@@ -626,6 +626,13 @@ def check_chain(pid):
         tr = c.drive("chain", 1500 if q else 20000)
         c.validate("chain", "TraceChain", "TraceChain.cfg", tr, rule="random stores (<=6 principals, mixed key algorithms, "
                    "chains <=6, 0..2 deviations) judged by TraceChain", cfg_constants=dict(Prop=pid))
+        if pid in ("C01", "C05"):
+            c.mc("MC_Authority", "MC_Authority.cfg", dict(MaxStore=2, MaxLen=2, Deviations="{}"), timeout=1500,
+                 label="system level: NoEscalation / Exercisable against the least fixpoint of held authority, store of <=2 of 432 delegations")
+            tr = c.drive("authority", 150 if q else 1500)
+            c.validate("authority", "TraceAuthority", "TraceAuthority.cfg", tr, cfg_constants=dict(Prop=pid),
+                       rule="random public stores of <=4 real delegations (any issuer/audience/subject incl. powerline, 4 commands, 4 policies) x "
+                            "3 invocations; EVERY proof list over the store tried on the real code; judged against Authority!Backed")
         tr = c.drive("chainfix", 300 if q else 6000)
         c.validate("chainfix", "TraceChain", "TraceChain.cfg", tr, rule="the repository's fixture store: all proof lists of length <=2 "
                    "and sampled longer ones, every persona/command/argument set", cfg_constants=dict(Prop=pid))
